@@ -22,10 +22,23 @@ package health
 //       canonicalising redirects the answer is 404, and no provider call at any step.
 // Nothing is demanded of authorised requests to enabled groups (they only provide the
 // non-vacuity evidence that the providers are reachable).
+//
+// Configuration dimension "shape of the configured token hash": auth is configured whenever
+// http.token_hash is non-empty (NewServer wraps the mux in requireAuth on cfg.TokenHash != "").
+// Besides the well-formed bcrypt hash of the token, a bounded family of non-empty values that
+// are NOT a usable hash (c24BuildShapes: too short, plaintext token, truncated, one character
+// removed, wrong prefix, newer major version, cost out of range / non-numeric, salt
+// not base64, well-formed-looking garbage) is put through the grid and the request histories.
+// With such a value no token is "the valid token", so clause (a) applies to EVERY presentation
+// (the token the hash was meant for included): 401 and no provider call on every non-exempt
+// path; clause (b): the five exempt paths keep answering without 401.
 
 import (
 	"bufio"
 	"context"
+	"crypto/sha256"
+	"encoding/base64"
+	"encoding/hex"
 	"errors"
 	"fmt"
 	"net"
@@ -33,6 +46,7 @@ import (
 	"net/http/httptest"
 	"path"
 	"runtime"
+	"strconv"
 	"strings"
 	"sync"
 	"sync/atomic"
@@ -163,7 +177,95 @@ func (p c24Misc) OpenICMPSession(ctx context.Context, t identity.AgentID, ip net
 
 const c24Token = "s3cret-Tok_en.7"
 
-var c24TokenHash string
+// c24Shape is one value of the configured http.token_hash. Index 0 is the well-formed bcrypt
+// hash of c24Token; every other entry is non-empty (auth configured) but no hash of any token.
+type c24Shape struct {
+	Name string `json:"name"`
+	Hash string `json:"-"`
+	Err  string `json:"bcrypt_says"` // measured: what bcrypt.CompareHashAndPassword(hash, c24Token) returns
+	// Class is the kind of that answer (measured from the error's type); violation fingerprints
+	// carry the class, the first (simplest) shape of a class is the one kept as replay artefact
+	Class string `json:"class"`
+}
+
+func c24ErrClass(err error) string {
+	var pe bcrypt.InvalidHashPrefixError
+	var ve bcrypt.HashVersionTooNewError
+	var ce bcrypt.InvalidCostError
+	var ne *strconv.NumError
+	var be base64.CorruptInputError
+	switch {
+	case err == nil:
+		return "accepts-the-token"
+	case errors.Is(err, bcrypt.ErrHashTooShort):
+		return "hash-too-short"
+	case errors.Is(err, bcrypt.ErrMismatchedHashAndPassword):
+		return "parses-but-matches-no-token"
+	case errors.As(err, &pe):
+		return "invalid-prefix"
+	case errors.As(err, &ve):
+		return "version-too-new"
+	case errors.As(err, &ce):
+		return "cost-out-of-range"
+	case errors.As(err, &ne):
+		return "cost-not-a-number"
+	case errors.As(err, &be):
+		return "salt-not-base64"
+	}
+	return fmt.Sprintf("other-%T", err)
+}
+
+var c24Shapes []c24Shape
+
+// c24BuildShapes derives the family from the well-formed hash ("$2a$04$" + 22 salt + 31 hash
+// characters), simplest first. It returns an error if bcrypt would accept c24Token for one of the
+// malformed shapes (then the shape is a usable hash and the oracle below would be wrong for it;
+// that is the case for a valid hash with characters APPENDED -- bcrypt ignores everything after
+// the 60th byte -- and for "$2$"/"$2b$"/"$2y$" respellings of the version, which are therefore
+// not in the family).
+func c24BuildShapes(good string) error {
+	if len(good) != 60 || !strings.HasPrefix(good, "$2a$04$") {
+		return fmt.Errorf("unexpected layout of the generated hash %q", good)
+	}
+	rest := good[7:]
+	sha := sha256.Sum256([]byte(c24Token))
+	c24Shapes = []c24Shape{
+		{Name: "well-formed", Hash: good},
+		{Name: "one-char", Hash: "x"},
+		{Name: "blank", Hash: " "},
+		{Name: "plaintext-token", Hash: c24Token},
+		{Name: "truncated-50", Hash: good[:50]},
+		{Name: "dollar-segments-eaten", Hash: rest}, // "$2a$04$" expanded away by a shell / env file
+		{Name: "last-char-removed", Hash: good[:59]},
+		{Name: "first-dollar-dropped", Hash: good[1:]},
+		{Name: "sha256-hex-of-token", Hash: hex.EncodeToString(sha[:])},
+		{Name: "garbage-60", Hash: strings.Repeat("x", 60)},
+		{Name: "major-version-3", Hash: "$3a$04$" + rest},
+		{Name: "cost-99", Hash: "$2a$99$" + rest},
+		{Name: "cost-03", Hash: "$2a$03$" + rest},
+		{Name: "cost-non-numeric", Hash: "$2a$xx$" + rest},
+		{Name: "salt-not-base64", Hash: "$2a$04$" + strings.Repeat("!", 22) + rest[22:]},
+		{Name: "garbage-in-hash-layout", Hash: "$2a$04$" + "abcdefghijklmnopqrstuu" + "ABCDEFGHIJKLMNOPQRSTUVWXYZ01234"},
+	}
+	for i := range c24Shapes {
+		sh := &c24Shapes[i]
+		err := bcrypt.CompareHashAndPassword([]byte(sh.Hash), []byte(c24Token))
+		sh.Class = c24ErrClass(err)
+		switch {
+		case i == 0 && err != nil:
+			return fmt.Errorf("the well-formed hash does not verify the token: %v", err)
+		case i == 0:
+			sh.Err = "accepts the token"
+		case sh.Hash == "":
+			return fmt.Errorf("shape %s is empty (auth would not be configured)", sh.Name)
+		case err == nil:
+			return fmt.Errorf("shape %s is a usable hash of the token", sh.Name)
+		default:
+			sh.Err = fmt.Sprintf("%T: %v", err, err)
+		}
+	}
+	return nil
+}
 
 const (
 	c24FlagToken = 1 << iota
@@ -174,6 +276,7 @@ const (
 
 type c24Case struct {
 	Cfg    int    `json:"cfg"` // bit0 token configured, bit1 pprof, bit2 dashboard, bit3 remote API
+	Hash   int    `json:"hash_shape,omitempty"` // index into c24Shapes (0 = well-formed hash of the token); only read when bit0 of Cfg is set
 	Method string `json:"method"`
 	Target string `json:"target"`
 	Pres   int    `json:"presentation"`
@@ -213,14 +316,14 @@ func c24Raw(c *c24Case) string {
 			target += "?" + p.query
 		}
 	}
-	hdr := strings.ReplaceAll(p.header, "%HASH%", c24TokenHash)
+	hdr := strings.ReplaceAll(p.header, "%HASH%", c24Shapes[c.Hash].Hash)
 	return c.Method + " " + target + " HTTP/1.1\r\nHost: agent.local\r\n" + hdr + "Content-Length: 0\r\n\r\n"
 }
 
-func c24NewServer(cfg int, rec *c24Rec) *Server {
+func c24NewServer(cfg int, shape int, rec *c24Rec) *Server {
 	sc := ServerConfig{Address: "127.0.0.1:0", EnablePprof: cfg&c24FlagPprof != 0, EnableDashboard: cfg&c24FlagDashboard != 0, EnableRemoteAPI: cfg&c24FlagRemote != 0}
 	if cfg&c24FlagToken != 0 {
-		sc.TokenHash = c24TokenHash
+		sc.TokenHash = c24Shapes[shape].Hash
 	}
 	s := NewServer(sc, c24Stats{rec})
 	m := c24Misc{rec}
@@ -272,7 +375,7 @@ func c24Serve(h http.Handler, raw string) (*http.Request, *httptest.ResponseReco
 
 func c24Run(c *c24Case) (o c24Obs) {
 	rec := &c24Rec{}
-	s := c24NewServer(c.Cfg, rec)
+	s := c24NewServer(c.Cfg, c.Hash, rec)
 	h := s.Handler()
 	defer func() {
 		if p := recover(); p != nil {
@@ -303,7 +406,7 @@ func c24Run(c *c24Case) (o c24Obs) {
 			break
 		}
 		p := c24Presentations[c.Pres]
-		hdr := strings.ReplaceAll(p.header, "%HASH%", c24TokenHash)
+		hdr := strings.ReplaceAll(p.header, "%HASH%", c24Shapes[c.Hash].Hash)
 		_, w2, err := c24Serve(h, c.Method+" "+loc+" HTTP/1.1\r\nHost: agent.local\r\n"+hdr+"Content-Length: 0\r\n\r\n")
 		if err != nil {
 			break
@@ -355,8 +458,8 @@ type c24V struct{ fp, what string }
 
 func c24Check(c *c24Case, o *c24Obs) (viol []c24V, nontriv, outcome string) {
 	desc := func() string {
-		return fmt.Sprintf("[cfg=%04b %s %q presentation=%s warm=%v -> path %q status %d final %d provider-calls %d (%s) stats-calls %d]",
-			c.Cfg, c.Method, c.Target, c24Presentations[c.Pres].name, c.Warm, o.path, o.status, o.final, o.calls, o.firstCall, o.stats)
+		return fmt.Sprintf("[cfg=%04b token_hash=%s(%s) %s %q presentation=%s warm=%v -> path %q status %d final %d provider-calls %d (%s) stats-calls %d]",
+			c.Cfg, c24Shapes[c.Hash].Name, c24Shapes[c.Hash].Class, c.Method, c.Target, c24Presentations[c.Pres].name, c.Warm, o.path, o.status, o.final, o.calls, o.firstCall, o.stats)
 	}
 	if o.parseErr {
 		return nil, "", "rejected-by-parser"
@@ -365,10 +468,18 @@ func c24Check(c *c24Case, o *c24Obs) (viol []c24V, nontriv, outcome string) {
 		viol = append(viol, c24V{"C24/panic", "handler panicked: " + o.panic + " " + desc()})
 	}
 	tokenCfg := c.Cfg&c24FlagToken != 0
-	hasValid := strings.Contains(o.rawQuery, c24Token)
-	for _, a := range o.authVals {
-		if strings.Contains(a, c24Token) {
-			hasValid = true
+	// the configured token_hash is non-empty but not the hash of any token: auth is configured and
+	// nobody holds the valid token, whatever is presented
+	unusable := tokenCfg && c.Hash != 0
+	shape := c24Shapes[c.Hash].Name
+	class := c24Shapes[c.Hash].Class
+	hasValid := false
+	if !unusable {
+		hasValid = strings.Contains(o.rawQuery, c24Token)
+		for _, a := range o.authVals {
+			if strings.Contains(a, c24Token) {
+				hasValid = true
+			}
 		}
 	}
 	exempt := c24Exempt[o.path]
@@ -385,6 +496,22 @@ func c24Check(c *c24Case, o *c24Obs) (viol []c24V, nontriv, outcome string) {
 		spelling = "respelled"
 	}
 	switch {
+	case unusable && !exempt:
+		if o.status != http.StatusUnauthorized {
+			viol = append(viol, c24V{"C24/unusable-hash-not-401/" + class, "token_hash is configured (non-empty) but is not the hash of any token, yet a request to a non-exempt path was not answered 401 " + desc()})
+		}
+		if o.calls != 0 || o.stats != 0 {
+			viol = append(viol, c24V{"C24/unusable-hash-action/" + class, "token_hash is configured (non-empty) but is not the hash of any token, yet a request to a non-exempt path triggered a provider call " + desc()})
+		}
+		nontriv = fmt.Sprintf("deny-unusable|%s|%s|%s", shape, pathClass, c24Presentations[c.Pres].name)
+	case unusable && exempt:
+		if o.status == http.StatusUnauthorized {
+			viol = append(viol, c24V{"C24/unusable-hash-exempt-401/" + class + o.path, "exempt endpoint demanded a token " + desc()})
+		}
+		if o.calls != 0 {
+			viol = append(viol, c24V{"C24/unusable-hash-exempt-action/" + class + "/" + o.firstCall, "exempt endpoint called a non-stats provider " + desc()})
+		}
+		nontriv = fmt.Sprintf("exempt-unusable|%s|%s|%d", shape, o.path, o.status)
 	case tokenCfg && !hasValid && !exempt:
 		if o.status != http.StatusUnauthorized {
 			viol = append(viol, c24V{fmt.Sprintf("C24/no-token-not-401/%s/status%d", pathClass, o.status), "request without the valid token to a non-exempt path was not answered 401 " + desc()})
@@ -402,7 +529,7 @@ func c24Check(c *c24Case, o *c24Obs) (viol []c24V, nontriv, outcome string) {
 		}
 		nontriv = fmt.Sprintf("exempt|%s|%s|%d", o.path, c.Method, o.status)
 	}
-	authorised := !tokenCfg || c24Presentations[c.Pres].name == "bearer-valid"
+	authorised := !tokenCfg || (!unusable && c24Presentations[c.Pres].name == "bearer-valid")
 	if authorised && grp != "" {
 		if !enabled {
 			if o.final != http.StatusNotFound {
@@ -423,6 +550,9 @@ func c24Check(c *c24Case, o *c24Obs) (viol []c24V, nontriv, outcome string) {
 		acted = "stats"
 	}
 	outcome = fmt.Sprintf("%s|%d|%d|%s|tok%v|valid%v|en%v", pathClass, o.status, o.final, acted, tokenCfg, hasValid, enabled)
+	if unusable {
+		outcome += "|unusable-hash"
+	}
 	return
 }
 
@@ -514,20 +644,47 @@ func c24Targets(thorough bool) []string {
 	return out
 }
 
+// c24CoreTargets: every registered route and exempt path as is, and one target per respelling
+// family that the auth middleware could treat differently from the router.
+func c24CoreTargets() []string {
+	id := c24RemoteID.String()
+	lid := c24LocalID.String()
+	return []string{
+		"/health", "/healthz", "/ready", "/", "/logo.png",
+		"/agents", "/agents/", "/agents/" + id, "/agents/" + id + "/routes", "/agents/" + id + "/peers", "/agents/" + id + "/shell",
+		"/agents/" + id + "/icmp", "/agents/" + id + "/file/upload", "/agents/" + id + "/file/download", "/agents/" + lid + "/file/browse",
+		"/agents/" + id + "/routes/manage", "/agents/" + id + "/forward/manage", "/agents/" + id + "/display-name/manage",
+		"/routes/advertise", "/routes/manage", "/forward/manage", "/display-name/manage", "/sleep", "/sleep/status", "/wake",
+		"/api/topology", "/api/dashboard", "/api/nodes", "/api/mesh-test", "/api/", "/api/unknown",
+		"/debug/pprof/", "/debug/pprof/cmdline", "/debug/pprof/profile", "/debug/pprof/symbol", "/debug/pprof/trace", "/debug/pprof/heap", "/debug/pprof/goroutine",
+		"/metrics", "/unknown", "/debug/", "/debug/vars", "/api", "/debug/pprof",
+		"/health/", "//healthz", "/health/../agents", "/healthz/..%2fagents", "/logo.png/../sleep", "/HEALTH", "/health?x=1", "/sleep/status?x=1", "*",
+	}
+}
+
 func TestVerif_C24(t *testing.T) {
 	r := vmc.New("C24", "exploration")
-	r.Rule = "product {token configured?} x {pprof, dashboard, remote API flags} x methods x token presentations x request targets (every registered route and exempt path under the spelling transforms listed in c24Targets), each parsed by http.ReadRequest and served by a fresh real Server.Handler() with recording providers; a case is non-trivial when a clause of the oracle applies (deny / exempt / gated) or an authorised request reached a provider; distinct = (clause, path class or group, presentation or first provider method, method, clean/respelled target)"
+	r.Rule = "product {token configured?} x {shape of the configured token hash: well-formed, or one of the non-empty unusable values of c24BuildShapes} x {pprof, dashboard, remote API flags} x methods x token presentations x request targets (every registered route and exempt path under the spelling transforms listed in c24Targets), each parsed by http.ReadRequest and served by a fresh real Server.Handler() with recording providers; a case is non-trivial when a clause of the oracle applies (deny / exempt / gated, deny-unusable / exempt-unusable under an unusable hash) or an authorised request reached a provider; distinct = (clause, path class or group, presentation or first provider method, method, clean/respelled target; under an unusable hash: clause, hash shape, path class, presentation)"
 	r.Assume("net/http's request parser and ServeMux are the ones the agent runs with (same toolchain); requests the parser rejects never reach the handler and are counted as rejected-by-parser")
 	r.Assume("requests are served with a cancelled context so that pprof's profile/trace handlers do not sleep; authentication and routing do not read the context")
 	r.Assume("bcrypt at MinCost; bcrypt itself is trusted")
+	r.Assume("auth is configured iff ServerConfig.TokenHash is non-empty (as NewServer decides); a non-empty value for which bcrypt.CompareHashAndPassword rejects the intended token (measured per shape, token_hash_shapes) is the hash of no token, so no presentation is valid under it")
 	h, err := bcrypt.GenerateFromPassword([]byte(c24Token), bcrypt.MinCost)
 	if err != nil {
 		t.Fatal(err)
 	}
-	c24TokenHash = string(h)
+	if err := c24BuildShapes(string(h)); err != nil {
+		r.HarnessError("C24 hash shapes: %v", err)
+		if err := r.Finish(); err != nil {
+			t.Fatal(err)
+		}
+		return
+	}
+	r.Info["token_hash_shapes"] = c24Shapes
 	thorough := r.Thorough()
 
 	var cases []c24Case
+	nUnusable := 0
 	var rc c24Case
 	if r.ReplayInto(&rc) {
 		cases = []c24Case{rc}
@@ -582,7 +739,56 @@ func TestVerif_C24(t *testing.T) {
 				}
 			}
 		}
+		// configuration dimension "shape of the configured token hash": every non-empty value that
+		// is not a usable hash x core targets (every registered route and exempt path as is, plus a
+		// few respellings) x methods x ALL presentations (cold, and warm = after a request with the
+		// token the hash was meant for), and x all targets for GET with {no token, the token in the
+		// header, the token in the query}. thorough: also with every group disabled, all methods,
+		// all warm variants.
+		core := c24CoreTargets()
+		r.Info["core_targets"] = len(core)
+		isCore := map[string]bool{}
+		for _, tg := range core {
+			isCore[tg] = true
+		}
+		shapeCfgs := []int{c24FlagToken | c24FlagPprof | c24FlagDashboard | c24FlagRemote}
+		shapeMethods := []string{"GET", "POST"}
+		shapeWarm := []int{1, 2}
+		if thorough {
+			shapeCfgs = append(shapeCfgs, c24FlagToken)
+			shapeMethods = allMethods
+			shapeWarm = []int{1, 2, 3, 4, 5, 6, 7, 8, 9, 11}
+		}
+		for sh := 1; sh < len(c24Shapes); sh++ {
+			for _, cfg := range shapeCfgs {
+				for _, tg := range core {
+					for _, m := range shapeMethods {
+						for _, p := range allPres {
+							cases = append(cases, c24Case{Cfg: cfg, Hash: sh, Method: m, Target: tg, Pres: p})
+						}
+						for _, p := range shapeWarm {
+							cases = append(cases, c24Case{Cfg: cfg, Hash: sh, Method: m, Target: tg, Pres: p, Warm: true})
+						}
+					}
+				}
+				for _, tg := range targets {
+					if isCore[tg] {
+						continue
+					}
+					for _, p := range []int{0, 1, 11} {
+						cases = append(cases, c24Case{Cfg: cfg, Hash: sh, Method: "GET", Target: tg, Pres: p})
+					}
+				}
+			}
+		}
+		for i := range cases {
+			if cases[i].Hash != 0 {
+				nUnusable++
+			}
+		}
 	}
+
+	r.Add("unusable_hash_requests", int64(nUnusable))
 
 	workers := runtime.GOMAXPROCS(0)
 	if workers > 16 {
